@@ -13,9 +13,11 @@ ID = "C16"
 LEVEL = "exploration"
 RULE = (
     "three kinds of case. nomod: every built-in sampler's sample() on histories with ties, 1e300, +-inf and "
-    ">float32 losses; digests of existing_points/existing_losses before == after. surrogate: a stub MLSurrogateSampler with "
+    ">float32 losses; digests of existing_points/existing_losses before == after, also for a second call after the sampler's own "
+    "batch was appended with inf / nan / overflowing losses; direct sample_batch(k) with k != batch_size returns k rows. surrogate: a stub MLSurrogateSampler with "
     "seeded arbitrary fit/predict (incl. constant and tie-heavy predictions) and the three real surrogates with fit/predict "
-    "wrapped: fit sees exactly the given history, predict sees the pool sample_candidates produced, the returned rows are "
+    "wrapped (and, for the real ones, the third-party estimator's own fit: it receives exactly the history rows and no hold-out "
+    "arguments; XGBoost histories up to 90 rows, GP histories above 500 now and then): fit sees exactly the given history (stub histories also with inf / nan losses), predict sees the pool sample_candidates produced, the returned rows are "
     "pool rows that are the batch_size lowest predictions (ties at the cut accepted), count == requested. bestbatch: every "
     "proposal is explained by a history point among those with loss <= the batch_size-th smallest loss moved by k in "
     "+-[1, range-1] precision steps on >= 1 coordinate (0 elsewhere) then clipped to the bounds and snapped. "
@@ -26,7 +28,7 @@ ASSUMPTIONS = [
     "fitted estimators are third-party; only what black_it passes to and takes from them is judged",
 ]
 REQUIRED_COUNTERS = {f"nomod_{k}": 6 for k in G.SAMPLER_KINDS}
-REQUIRED_COUNTERS.update({"second_history_same_length": 40, "stub_calls": 100, "real_surrogate_calls": 30, "bestbatch_proposals": 200, "extreme_histories": 50, "boundary_ties": 20})
+REQUIRED_COUNTERS.update({"stub_histories_with_nonfinite_losses": 15, "nomod_second_call_on_extended_history": 30, "direct_sample_batch_other_size": 60, "estimator_fits_observed": 40, "second_history_same_length": 40, "stub_calls": 100, "real_surrogate_calls": 30, "bestbatch_proposals": 200, "extreme_histories": 50, "boundary_ties": 20})
 SHARDS = {"quick": 16, "thorough": 16}
 SHARD_WATCHDOG = {"quick": 1500, "thorough": 10800}
 
@@ -117,9 +119,29 @@ def run_case(desc, ctx):
             try:
                 with quiet(), G.time_limit(G.LIMIT):
                     s = G.build_sampler(smp)
-                    s.sample(space, pts, losses)
+                    first = s.sample(space, pts, losses)
                     if sk in ("ParticleSwarm", "CORS") or rng.random() < 0.3:
                         s.sample(space, pts, losses)
+                    if rng.random() < 0.5:
+                        # the run goes on: the batch just proposed is evaluated (possibly with an inf / nan / overflowing loss) and appended,
+                        # then the same sampler object is asked again - its own previous batch is now part of the history
+                        new_l = rng.random(len(first)) + 0.01
+                        if rng.random() < 0.6:
+                            new_l[int(rng.integers(len(first)))] = float(rng.choice([np.inf, -np.inf, np.nan, 1e300, -1e39, 3.5e38]))
+                        pts2 = np.vstack((pts, first))
+                        losses2 = np.concatenate((losses, new_l))
+                        p2, l2 = digest(pts2), digest(losses2)
+                        if readonly:
+                            pts2.setflags(write=False)
+                            losses2.setflags(write=False)
+                        cnt("nomod_second_call_on_extended_history")
+                        try:
+                            s.sample(space, pts2, losses2)
+                        finally:
+                            if digest(pts2) != p2:
+                                bad(f"{sk}: sample() modified existing_points (second call, after its own batch was appended)", dict(w, appended_losses=new_l))
+                            if digest(losses2) != l2:
+                                bad(f"{sk}: sample() modified existing_losses (second call, after its own batch was appended with losses {new_l})", dict(w, appended_losses=new_l))
             except G.Timeout:
                 cnt(f"rejected_timeout_{sk}")
             except Exception as e:  # noqa: BLE001
@@ -143,9 +165,21 @@ def run_case(desc, ctx):
             bs = int(rng.integers(1, 6))
             pool_n = int(rng.integers(bs, 80))
             n = int(rng.integers(3, 40))
+            if kind == "real" and desc["sampler"] == "XGBoost" and rng.random() < 0.4:
+                n = int(rng.integers(50, 90))      # long enough for any internal hold-out / early-stopping split to kick in
+            if kind == "real" and desc["sampler"] == "GaussianProcess" and rng.random() < 0.08:
+                n = int(rng.integers(505, 530))    # beyond the sampler's "big dataset" threshold (500): still the whole history
+                cnt("gp_histories_above_500")
             pts, losses, lk = G.gen_history(rng, space, n)
-            seen = {"fit": [], "predict": [], "pool": [], "batches": []}
-            pmode = str(rng.choice(["random", "constant", "ties", "linear"]))
+            if kind == "stub" and rng.random() < 0.35:
+                # non-finite losses are part of "the given history" too (what a user surrogate does with them is its business)
+                losses, _ek = extreme_losses(rng, n)
+                if rng.random() < 0.5:
+                    losses[int(rng.integers(n))] = np.nan
+                lk = "extreme"
+                cnt("stub_histories_with_nonfinite_losses")
+            seen = {"fit": [], "predict": [], "pool": [], "batches": [], "estimator_fit": []}
+            pmode = str(rng.choice(["random", "constant", "ties", "linear", "large_offset", "huge"]))
             pseed = int(rng.integers(2**31))
 
             if kind == "stub":
@@ -161,6 +195,10 @@ def run_case(desc, ctx):
                             return np.zeros(len(X))
                         if pmode == "ties":
                             return r.integers(0, 3, size=len(X)).astype(float)
+                        if pmode == "large_offset":     # distinct in float64, equal after a down-cast to float32
+                            return 1e6 + r.normal(size=len(X)) * 1e-3
+                        if pmode == "huge":             # finite in float64, beyond the float32 range
+                            return 10.0 ** r.uniform(30, 300, size=len(X))
                         return X @ r.normal(size=X.shape[1])
 
                 cls = Stub
@@ -187,8 +225,26 @@ def run_case(desc, ctx):
             def post_batch(tok, res, err, self, batch_size, *a, **k):
                 seen["batches"].append((int(batch_size), None if res is None else np.array(res, copy=True), len(seen["predict"]), len(seen["fit"]), len(seen["pool"])))
 
+            import contextlib
+
+            est_stack = contextlib.ExitStack()
+            if kind == "real":
+                # what black_it hands to the third-party estimator: the rows it is trained on are the history rows, all of them
+                if desc["sampler"] == "XGBoost":
+                    import xgboost as _xgb
+
+                    est_cls = _xgb.XGBRegressor
+                elif desc["sampler"] == "GaussianProcess":
+                    from sklearn.gaussian_process import GaussianProcessRegressor as est_cls
+                else:
+                    from sklearn.ensemble import RandomForestClassifier as est_cls
+
+                def pre_est(self_, X, y=None, *a, **k):
+                    seen["estimator_fit"].append((np.array(X, copy=True), None if y is None else len(np.asarray(y)), sorted(k)))
+
+                est_stack.enter_context(Wrap(est_cls, "fit", pre=pre_est))
             try:
-                with Wrap(cls, "fit", post=post_fit), Wrap(cls, "predict", post=post_predict), \
+                with est_stack, Wrap(cls, "fit", post=post_fit), Wrap(cls, "predict", post=post_predict), \
                         Wrap(MLSurrogateSampler, "sample_candidates", post=post_pool), Wrap(MLSurrogateSampler, "sample_batch", post=post_batch), \
                         quiet(), G.time_limit(G.LIMIT):
                     final = sampler.sample(space, pts, losses)
@@ -196,6 +252,12 @@ def run_case(desc, ctx):
                     # the same object again, on a different history of the same length
                     pts_b, losses_b, _ = G.gen_history(rng, space, n)
                     final_b = sampler.sample(space, pts_b, losses_b)
+                    # ... and asked directly for another number of rows than it was constructed for (what a de-duplication pass does)
+                    k_req = int(rng.choice([x for x in (1, 2, 3, bs + 1, bs + 3) if x != bs and x <= pool_n] or [bs]))
+                    direct = sampler.sample_batch(k_req, space, pts_b, losses_b)
+                    if np.asarray(direct).shape != (k_req, space.dims):
+                        bad(f"{smp['kind']}: sample_batch({k_req}) on a sampler constructed with batch_size {bs} returned shape {np.asarray(direct).shape}", w)
+                    cnt("direct_sample_batch_other_size")
             except G.Timeout:
                 cnt("rejected_timeout")
                 continue
@@ -208,6 +270,17 @@ def run_case(desc, ctx):
                 bad(f"{smp['kind']}: sample_batch ran {len(seen['batches'])} times but fit {len(seen['fit'])} / predict {len(seen['predict'])} times", w)
                 continue
             cnt("second_history_same_length")
+            if kind == "real":
+                if not seen["estimator_fit"]:
+                    bad(f"{smp['kind']}: the third-party estimator's fit() was never reached", w)
+                else:
+                    cnt("estimator_fits_observed", len(seen["estimator_fit"]))
+                    Xe, ny, kws = seen["estimator_fit"][0]
+                    if Xe.shape != np.asarray(pts).shape or not np.array_equal(Xe, pts) or (ny is not None and ny != len(pts)):
+                        bad(f"{smp['kind']}: the estimator was trained on {Xe.shape[0]} rows" + (f" (extra arguments {kws})" if kws else "") +
+                            f", the history given has {len(pts)}: not exactly the given history", w)
+                    elif any(k_ in ("eval_set", "sample_weight") for k_ in kws):
+                        bad(f"{smp['kind']}: the estimator's fit got {kws}: part of the history is used for something else than training", w)
             for bi, (req, res, npred, nfit, npool) in enumerate(seen["batches"]):
                 hp, hl = (pts, losses) if bi < n_first else (pts_b, losses_b)
                 if nfit == 0 or npool == 0:
